@@ -9,6 +9,7 @@ import (
 	"pgregory.net/rapid"
 
 	"verif/internal/diff"
+	"verif/internal/gen"
 	"verif/internal/h"
 	"verif/internal/ref"
 	"verif/internal/rt"
@@ -96,6 +97,10 @@ func (x *gg) terminals() *rt.Term {
 }
 
 func (x *gg) callNT(rank int, consumed bool) *rt.Term {
+	if rank < 0 && x.p(20, "q5") { // (direct bodies only)
+		v := x.v()
+		return rt.C("q5", x.term(), v, v, x.arg(), x.term())
+	}
 	// a rule of rank i may call itself or lower ranks only after it has consumed a terminal
 	lo := rank + 1
 	if consumed {
@@ -255,6 +260,8 @@ func genCase() *rapid.Generator[Case] {
 			}
 		}
 		c.Rules = append(c.Rules, rt.C("-->", rt.A("tz"), rt.ListOf(rt.A("c"))))
+		// q5//5 is a helper non-terminal with many arguments: q5(A, _, _, _, E) --> [A], [E].
+		c.Rules = append(c.Rules, rt.C("-->", rt.C("q5", rt.V(0), rt.V(1), rt.V(2), rt.V(3), rt.V(4)), rt.C(",", rt.ListOf(rt.V(0)), rt.ListOf(rt.V(4)))))
 		c.Start, c.Arity = x.nts[0].name, x.nts[0].arity
 		x.nvars = 0
 		c.Direct = x.seq(-1, 2, true, false)
@@ -345,6 +352,7 @@ func init() {
 var listInputs [][]*rt.Term
 
 type probe struct {
+	real *rt.Term // if set: what the real system is asked (same answer variables as q, further ones are auxiliary)
 	q    *rt.Term
 	kind string
 	max  int
@@ -379,6 +387,48 @@ func (c Case) hasListToken() bool {
 	return c.Direct != nil && in(c.Direct, false)
 }
 
+// buildDirect rewrites a direct body so that it is put together at run time: every non-terminal call with
+// arguments becomes a variable bound beforehand by G =.. [Name|Args] (equal calls share one variable, so the body
+// holds one compound value at several places), every proper terminal list of >= 2 elements becomes [E1|T] with
+// T bound beforehand. The body means the same: it is converted when phrase/3 is called.
+func buildDirect(d *rt.Term) (pre []*rt.Term, out *rt.Term) {
+	next := int64(70)
+	shared := map[string]*rt.Term{}
+	var rec func(t *rt.Term) *rt.Term
+	rec = func(t *rt.Term) *rt.Term {
+		switch {
+		case t.K != rt.Comp:
+			return t
+		case t.Is(".", 2):
+			es, tail := t.Unlist()
+			if tail.IsAtom("[]") && len(es) >= 2 {
+				v := rt.V(next)
+				next++
+				pre = append(pre, rt.C("=", v, rt.List(es[1:], nil)))
+				return rt.List(es[:1], v)
+			}
+			return t
+		case t.Is(",", 2) || t.Is(";", 2) || t.Is("|", 2) || t.Is("->", 2):
+			return rt.C(t.S, rec(t.A[0]), rec(t.A[1]))
+		case t.Is("\\+", 1):
+			return rt.C(t.S, rec(t.A[0]))
+		case t.Is("{}", 1) || t.S == "call":
+			return t
+		}
+		k := t.String()
+		if v, ok := shared[k]; ok {
+			return v
+		}
+		v := rt.V(next)
+		next++
+		shared[k] = v
+		pre = append(pre, rt.C("=..", v, rt.List(append([]*rt.Term{rt.A(t.S)}, t.A...), nil)))
+		return v
+	}
+	out = rec(d)
+	return pre, out
+}
+
 func (c Case) probes(maxLen int) []probe {
 	args := make([]*rt.Term, c.Arity)
 	for i := range args {
@@ -395,17 +445,25 @@ func (c Case) probes(maxLen int) []probe {
 			continue
 		}
 		l := rt.List(in, nil)
-		ps = append(ps, probe{rt.C("phrase", s, l), "recognise", 40, false})
-		ps = append(ps, probe{rt.C("phrase", s, l, rt.V(30)), "open_remainder", 40, false})
+		ps = append(ps, probe{q: rt.C("phrase", s, l), kind: "recognise", max: 40})
+		ps = append(ps, probe{q: rt.C("phrase", s, l, rt.V(30)), kind: "open_remainder", max: 40})
 		for k := 1; k <= len(in); k++ { // bound, non-empty remainder
-			ps = append(ps, probe{rt.C("phrase", s, l, rt.List(in[k:], nil)), "bound_remainder", 40, false})
+			ps = append(ps, probe{q: rt.C("phrase", s, l, rt.List(in[k:], nil)), kind: "bound_remainder", max: 40})
 		}
 		if len(in) <= 2 {
-			ps = append(ps, probe{rt.C("phrase", plain(c.Direct), l, rt.V(30)), "direct_body", 40, false})
+			ps = append(ps, probe{q: rt.C("phrase", plain(c.Direct), l, rt.V(30)), kind: "direct_body", max: 40})
+			// the same body put together at run time: non-terminals built by =.. (equal ones are one term), terminal
+			// lists completed by binding their tail beforehand; once alone and once twice in a row
+			pre, built := buildDirect(plain(c.Direct))
+			if len(pre) > 0 {
+				d := plain(c.Direct)
+				ps = append(ps, probe{q: rt.C("phrase", d, l, rt.V(30)), real: gen.Conj(append(pre, rt.C("phrase", built, l, rt.V(30)))), kind: "direct_body_built_at_run_time", max: 40})
+				ps = append(ps, probe{q: rt.C("phrase", rt.C(",", d, d), l, rt.V(30)), real: gen.Conj(append(pre, rt.C("phrase", rt.C(",", built, built), l, rt.V(30)))), kind: "direct_body_built_at_run_time_twice", max: 40})
+			}
 		}
 	}
-	ps = append(ps, probe{rt.C("phrase", s, rt.V(31)), "generate", 20, true})
-	ps = append(ps, probe{rt.C("phrase", s, rt.V(31), rt.V(30)), "generate_open", 20, true})
+	ps = append(ps, probe{q: rt.C("phrase", s, rt.V(31)), kind: "generate", max: 20, seq: true})
+	ps = append(ps, probe{q: rt.C("phrase", s, rt.V(31), rt.V(30)), kind: "generate_open", max: 20, seq: true})
 	return ps
 }
 
@@ -486,6 +544,14 @@ func check(c Case, maxLen int) (st stats, err error) {
 			nm[id] = names[j]
 		}
 		qt := pr.q.Text(nm) + "."
+		if pr.real != nil {
+			for _, id := range pr.real.Vars(nil) {
+				if _, ok := nm[id]; !ok {
+					nm[id] = fmt.Sprintf("Aux%d", id)
+				}
+			}
+			qt = pr.real.Text(nm) + "."
+		}
 		for _, side := range []struct {
 			name string
 			i    *sut.I
